@@ -35,14 +35,14 @@ def gen_case(rng, n, for_fit):
         kind = "valid"
     pool = list(range(n))
     rng.shuffle(pool)
-    m = rng.randint(2, min(n, 9))
+    m = rng.randint(2, min(n, 9 if n <= 14 else 22))
     nodes = pool[:m]
     ml, cl = [], []
     # components over the chosen nodes
     comps = []
     i = 0
     while i < len(nodes):
-        size = rng.randint(1, 4)
+        size = rng.randint(1, 4 if n <= 14 else 7)
         comps.append(nodes[i:i + size])
         i += size
     for comp in comps:
@@ -127,7 +127,7 @@ def malform(value, how, pairs):
 
 
 def generate(rng):
-    cfg = sample_config(rng, n_range=(4, 14), k_range=(2, 4), max_iter_range=(1, 3), allow_callable=False)
+    cfg = sample_config(rng, n_range=(4, 14), k_range=(2, 4), max_iter_range=(1, 3), allow_callable=False, p_big=0.12)
     case = gen_case(rng, cfg["n"], True)
     if rng.random() < 0.25:
         # validation only, with large non-contiguous indices: "whatever the sample indices are"
